@@ -21,7 +21,6 @@ import (
 	"github.com/idena-network/idena-go/core/upgrade"
 	"github.com/idena-network/idena-go/crypto"
 	"github.com/idena-network/idena-go/crypto/ecies"
-	"github.com/idena-network/idena-go/crypto/vrf/p256"
 	"github.com/idena-network/idena-go/pengings"
 	"github.com/idena-network/idena-go/secstore"
 	"github.com/idena-network/idena-go/stats/collector"
@@ -30,7 +29,6 @@ import (
 	"pgregory.net/rapid"
 
 	"verifharness/internal/evid"
-	"verifharness/internal/kf"
 	"verifharness/internal/sim"
 )
 
@@ -357,40 +355,6 @@ func (p *point) hostileProof(label string) ([]byte, string) {
 	return []byte{}, "proof=empty"
 }
 
-// keyHangRoot: Blockchain.ValidateProposerProof ignores the error of ProofToHash; for a proposer that is a pool
-// (modifier > 1) the all-zero hash of a failed verification sends common/math.Root into an iteration that never
-// meets its stopping rule.
-const keyHangRoot = "c12.hang.common.math.Root"
-
-// proposerProofWouldSpin predicts that shape (only used to exclude it once it is listed as a known finding).
-func (p *point) proposerProofWouldSpin(proof []byte, pubKey []byte) bool {
-	pk, err := crypto.UnmarshalPubkey(pubKey)
-	if err != nil {
-		return false
-	}
-	addr := crypto.PubkeyToAddress(*pk)
-	vc := p.v.r.AppState.ValidatorsCache
-	if !vc.IsPool(addr) || vc.PoolSize(addr) <= 1 {
-		return false
-	}
-	verifier, err := p256.NewVRFVerifier(pk)
-	if err != nil {
-		return false
-	}
-	head := p.v.r.Chain.Head
-	data := append(append(head.Seed().Bytes(), common.ToBytes(blockchain.ProposerRole)...), common.ToBytes(head.Height()+1)...)
-	_, err = verifier.ProofToHash(data, proof)
-	return err != nil
-}
-
-func (p *point) excludedKnownHang(proof []byte, pubKey []byte) bool {
-	if kf.Listed("C12", keyHangRoot) && p.proposerProofWouldSpin(proof, pubKey) {
-		evid.KnownHit("C12", keyHangRoot, "excluded by construction: proposer proof that fails verification, signed by a pool of size > 1")
-		return true
-	}
-	return false
-}
-
 func (p *point) evalHeader() {
 	t, w, v := p.t, p.w, p.v.r
 	if p.honest == nil {
@@ -460,9 +424,6 @@ func (p *point) evalHeader() {
 		evid.Count("proposal.gate_rejected")
 		return
 	}
-	if p.excludedKnownHang(dec.Proof, dec.Block.Header.ProposedHeader.ProposerPubKey) {
-		return
-	}
 	evid.Count("proposal.reached.AddProposedBlock")
 	var added, pending bool
 	props := p.v.proposals()
@@ -503,9 +464,6 @@ func (p *point) evalProof() {
 	evid.Count("proof." + sl)
 	in := func() string {
 		return fmt.Sprintf("proofProposal{round=%d (current %d) %s %s signer=%s} wire=%x", dec.Round, round, pl, sl, a, wire)
-	}
-	if pub, err := types.ProofProposalPubKey(dec); err == nil && p.excludedKnownHang(dec.Proof, pub) {
-		return
 	}
 	props := p.v.proposals()
 	var added, pending bool
